@@ -507,3 +507,99 @@ func GCHandover[S any](o Optic[S], zero any, mk func(i int) any, check func(v an
 	}
 	Rec.Count("gc_handover_moves", moves)
 }
+
+// ---------------------------------------------------------------- Join chains with a head that is not a field lens
+
+type mlInner struct {
+	Pad  int16
+	N    int
+	Note string
+}
+
+type mlOuter struct {
+	ID   int
+	In   mlInner
+	Tail string
+}
+
+// JoinHeads: Join chains, nested to the left and to the right, whose first optic is a map lens or a converted
+// (BiMap) lens rather than a plain field lens: Put has to reach the container through every optic of the chain.
+func JoinHeads() {
+	if !Want("C04", "C04-joinheads") {
+		return
+	}
+	c := Case{ID: "C04-joinheads", Site: "Join/head-kinds", Struct: "map[string]mlOuter, mlOuter", Req: "Join(Join(head, In), N) and Join(head, Join(In, N)) for head = NewLensM / BiMap / field lens", Expect: "Put writes the nested field, Get reads it, nothing else changes"}
+	if !Begin(c) {
+		return
+	}
+	in := optics.ForProduct1[mlOuter, mlInner]("In")
+	n := optics.ForProduct1[mlInner, int]("N")
+	note := optics.ForProduct1[mlInner, string]("Note")
+	// head 1: a map of structs
+	for round := 0; round < 60; round++ {
+		key := fmt.Sprintf("k%d", round%3)
+		head := optics.NewLensM[map[string]mlOuter, string, mlOuter](key)
+		chains := map[string]optics.Lens[map[string]mlOuter, int]{
+			"Join(Join(map, In), N)": optics.Join(optics.Join(head, in), n),
+			"Join(map, Join(In, N))": optics.Join(head, optics.Join(in, n)),
+		}
+		for name, l := range chains {
+			m := map[string]mlOuter{"k0": {ID: 1, In: mlInner{1, 10, "a"}, Tail: "t0"}, "k1": {ID: 2, In: mlInner{2, 20, "b"}, Tail: "t1"}, "k2": {ID: 3, In: mlInner{3, 30, "c"}, Tail: "t2"}}
+			want := map[string]mlOuter{}
+			for k, v := range m {
+				want[k] = v
+			}
+			if got := l.Get(&m); got != want[key].In.N {
+				vio("C04", c, "joinhead-get", "%s: Get = %d, the map holds %d", name, got, want[key].In.N)
+			}
+			v := 1000 + round
+			l.Put(&m, v)
+			w := want[key]
+			w.In.N = v
+			want[key] = w
+			if !reflect.DeepEqual(m, want) {
+				vio("C04", c, "joinhead-put", "%s: after Put(%d) the map is %v, a write through selectors gives %v", name, v, m, want)
+			}
+			if got := l.Get(&m); got != v {
+				vio("C04", c, "putget", "%s: Get after Put(%d) = %d", name, v, got)
+			}
+			Rec.Count("put_get_observations", 1)
+		}
+		// the string field through the same heads
+		ls := optics.Join(optics.Join(head, in), note)
+		m := map[string]mlOuter{key: {ID: 9, In: mlInner{1, 2, "old"}, Tail: "t"}}
+		ls.Put(&m, "new")
+		if m[key].In.Note != "new" || m[key].In.N != 2 || m[key].Tail != "t" || ls.Get(&m) != "new" {
+			vio("C04", c, "joinhead-put", "Join(Join(map, In), Note): after Put(new) the entry is %+v", m[key])
+		}
+	}
+	// head 2: a converted lens (the whole nested struct seen through an invertible conversion)
+	type view struct {
+		N    int
+		Note string
+		Pad  int16
+	}
+	conv := optics.BiMap(in,
+		func(a mlInner) view { return view{a.N, a.Note, a.Pad} },
+		func(b view) mlInner { return mlInner{b.Pad, b.N, b.Note} })
+	vn := optics.ForProduct1[view, int]("N")
+	vnote := optics.ForProduct1[view, string]("Note")
+	for round := 0; round < 60; round++ {
+		l := optics.Join(conv, vn)
+		s := mlOuter{ID: 5, In: mlInner{7, 70 + round, "x"}, Tail: "tail"}
+		if got := l.Get(&s); got != 70+round {
+			vio("C04", c, "joinhead-get", "Join(BiMap(In), N): Get = %d, the field holds %d", got, 70+round)
+		}
+		l.Put(&s, -round)
+		if s != (mlOuter{ID: 5, In: mlInner{7, -round, "x"}, Tail: "tail"}) || l.Get(&s) != -round {
+			vio("C04", c, "joinhead-put", "Join(BiMap(In), N): after Put(%d) the structure is %+v", -round, s)
+		}
+		l2 := optics.Join(conv, vnote)
+		l2.Put(&s, "y")
+		if s.In.Note != "y" || s.In.N != -round || s.In.Pad != 7 || l2.Get(&s) != "y" {
+			vio("C04", c, "joinhead-put", "Join(BiMap(In), Note): after Put(y) the structure is %+v", s)
+		}
+		Rec.Count("put_get_observations", 2)
+	}
+	End(c, "C04/joinheads", true)
+}
